@@ -86,6 +86,25 @@ constexpr bool ShouldSerializeFieldValue(std::variant<Ts...> const& var) {
   return true;
 }
 
+// A field that ShouldSerializeFieldValue() skipped is absent from the JSON
+// object. When reading, it has to be reset, because the destination may still
+// hold the value of a previously read record.
+template <typename T>
+constexpr void ResetOmittedFieldValue(T&) {
+}
+
+template <typename T>
+constexpr void ResetOmittedFieldValue(std::optional<T>& value) {
+  value.reset();
+}
+
+template <typename... Ts>
+constexpr void ResetOmittedFieldValue(std::variant<Ts...>& var) {
+  if constexpr (std::is_same_v<std::monostate, std::variant_alternative_t<0, std::variant<Ts...>>>) {
+    var.template emplace<0>();
+  }
+}
+
 }  // namespace yardl::ndjson
 
 NLOHMANN_JSON_NAMESPACE_BEGIN
